@@ -10,12 +10,15 @@ Skip(e) == IsEv(e) /\ UNCHANGED dvars
 TInit == DInit /\ l = 1
 TNext ==
   \/ IsEv("Reset") /\ cfg' = [s \in Sinks |-> [en |-> FALSE, def |-> 0, mods |-> <<>>]] /\ maxLen' = 0
+                   /\ closing' = [s \in Sinks |-> FALSE] /\ inflight' = [t \in Threads |-> FALSE]
                    /\ calls' = [t \in Threads |-> <<>>] /\ nextIx' = [s \in Sinks |-> [t \in Threads |-> 1]] /\ lastFile' = [s \in Sinks |-> 0]
   \/ IsEv("config") /\ DConfig(Ev.max, Ev.sinks)
   \/ IsEv("enabled") /\ DEnable(Ev.s)
   \/ IsEv("call") /\ DCall(Ev.th, Ev.seq, Ev.lvl, Ev.mod, Ev.func, Ev.file, Ev.line, Ev.len)
-  \/ Skip("ret")
-  \/ IsEv("got") /\ DGot(Ev.s, Ev.th, Ev.lvl, Ev.lvlc, Ev.mod, Ev.func, Ev.file, Ev.line, Ev.len, Ev.trunc, Ev.head, Ev.pad, Ev.ts_ok, Ev.fi)
+  \/ IsEv("ret") /\ DRet(Ev.th)
+  \/ IsEv("front") /\ Ev.th \in Threads /\ DFront(Ev.s, Ev.th)
+  \/ IsEv("disable_begin") /\ DDisableBegin(Ev.s)
+  \/ IsEv("got") /\ Ev.th \in Threads /\ Ev.s \in Sinks /\ DGot(Ev.s, Ev.th, Ev.lvl, Ev.lvlc, Ev.mod, Ev.func, Ev.file, Ev.line, Ev.len, Ev.trunc, Ev.head, Ev.pad, Ev.ts_ok, Ev.fi)
   \/ IsEv("disabled") /\ DDisabled(Ev.s)
   \/ Skip("end")
 TSpec == TInit /\ [][TNext]_tvars
